@@ -74,7 +74,7 @@ execute_c14 (const scenario_t *sc, result_t *res)
 {
     machine_t *m;
     uint64_t h = FNV_INIT;
-    int j, checked = 0, cold = (int)sc_get (sc, "cold_replica", 0);
+    int j, checked = 0, cold = (int)sc_get (sc, "cold_replica", 0), reissue = (int)sc_get (sc, "reissue", 1);
     int chain = (int)sc_get (sc, "chain", 0);
     long faults = 0;
 
@@ -117,9 +117,12 @@ execute_c14 (const scenario_t *sc, result_t *res)
 	faults += st.n_failed;
 	h = fnv_u64 (h, ((uint64_t)j << 4) ^ (uint64_t)(st.ret * 2 + st.executed));
 	if (st.executed) sim_count (mop_names[op->kind], 1);
-	if (st.executed && st.has_status && !st.ret && st.n_failed && !st.is_draw)
+	if (st.executed && st.has_status && !st.ret && st.n_failed && !st.is_draw &&
+	    (reissue || (op->kind != MOP_SET_TRANSFORM && op->kind != MOP_SET_FILTER)))
 	{
-	    /* the setter reported failure: the caller issues it again */
+	    /* the setter reported failure: the caller issues it again (in half of the runs a
+	     * failed set_transform / set_filter is NOT repeated: the image must then render
+	     * like a fresh one with the last value that WAS applied) */
 	    sim_op_t again = *op;
 	    mstep_t s2;
 	    again.a[0] = again.a[1] = again.a[2] = 0;
@@ -291,6 +294,7 @@ gen_c14 (gen_t *g, rng_t *r, scenario_t *sc, int tier)
     int nsrc = (int)rng_range (r, 2, 4);
     static const int chains[] = { 0, 0, 0, 15, 16, 1, 4, 12, 31 };
     sc_set (sc, "cold_replica", rng_chance (r, 1, 4));
+    sc_set (sc, "reissue", rng_chance (r, 1, 2));
     sc_set (sc, "chain", chains[rng_n (r, 9)]);
     /* pool: 0,1 destinations; 2.. sources/masks; later alpha-map candidates */
     gen_bits (g, 0, rng_chance (r, 2, 3) ? FC_FASTPATH : FC_ANY, 48, 10, 0x9);
